@@ -242,6 +242,7 @@ class SDVRPOracle(CVRPOracle):
     def step(self, st, a, active, t):
         cust = s_ne(a, 0)
         want = pick(a, st["rem"])
+        st.flag(s_and(active, s_and(s_not(cust), s_eq(st["cur"], 0))), "canonical:no_idle_depot", s_and(t > 0, any_([s_gt(r, 0) for r in st["rem"][1:]])))
         delivered = s_where(cust, s_min(want, s_sub(1.0, st["load"])), 0.0)
         newload = s_where(cust, s_add(st["load"], delivered), 0.0)
         st.flag(active, "capacity", s_gt(newload, s_add(1.0, margin())))
@@ -266,6 +267,8 @@ class SDVRPSpec(CVRPSpec):
 class OPOracle:
     """nodes at most once; the tour ends at the first return to the depot; total length incl. return <= max_length"""
 
+    lenient_last = None
+
     def __init__(self, row, n):
         self.n, self.row = n, row
         self.D = O.dist_matrix(row["X"], row["Y"])
@@ -279,7 +282,8 @@ class OPOracle:
         st.flag(s_and(active, cust), "visit_at_most_once", pick(a, st["visited"]))
         newlen = s_add(st["length"], pick2(st["cur"], a, self.D))
         ret = s_and(s_not(cust), t > 0)  # a leading depot action is the (explicit) start, not a return
-        st.flag(s_and(active, ret), "tour_length", s_gt(newlen, s_add(self.row["max_length"], margin())))
+        chk = ret if self.lenient_last is None else s_and(ret, t == self.lenient_last)
+        st.flag(s_and(active, chk), "tour_length", s_gt(newlen, s_add(self.row["max_length"], margin())))
         st.upd(active, visited=[s_or(v, s_and(cust, s_eq(a, k))) for k, v in enumerate(st["visited"])],
                length=newlen, cur=a, prize=s_add(st["prize"], pick(a, self.prize)), returned=s_or(st["returned"], ret))
 
@@ -325,6 +329,8 @@ class PCTSPOracle:
     """nodes at most once; ends at the first return to the depot; collected REAL prize >= 1 unless every node was
     visited; objective = -(closed length + penalties of unvisited nodes)"""
 
+    lenient_last = None
+
     def __init__(self, row, n, stochastic):
         self.n, self.row = n, row
         self.D = O.dist_matrix(row["X"], row["Y"])
@@ -339,7 +345,8 @@ class PCTSPOracle:
         st.flag(s_and(active, cust), "visit_at_most_once", pick(a, st["visited"]))
         ret = s_and(s_not(cust), t > 0)
         allv = all_(st["visited"][1:])
-        st.flag(s_and(active, ret), "min_prize", s_and(s_lt(st["prize"], s_sub(1.0, margin())), s_not(allv)))
+        chk = ret if self.lenient_last is None else s_and(ret, t == self.lenient_last)
+        st.flag(s_and(active, chk), "min_prize", s_and(s_lt(st["prize"], s_sub(1.0, margin())), s_not(allv)))
         st.upd(active, visited=[s_or(v, s_and(cust, s_eq(a, k))) for k, v in enumerate(st["visited"])],
                length=s_add(st["length"], pick2(st["cur"], a, self.D)), cur=a, prize=s_add(st["prize"], pick(a, self.prize)),
                returned=s_or(st["returned"], ret))
@@ -401,15 +408,17 @@ class PDPOracle:
         return OState(visited=[False] * (self.n + 1), cur=0, length=0.0)
 
     def step(self, st, a, active, t):
-        if self.force and t == 0:
-            st.flag(active, "start_at_depot", s_ne(a, 0))
-            return
-        st.flag(active, "no_depot_in_tour", s_eq(a, 0))
-        st.flag(active, "visit_once", pick(a, st["visited"]))
+        isdep = s_eq(a, 0)
+        if self.force:
+            st.flag(active, "canonical:depot_exactly_at_start", s_ne(isdep, t == 0))
+        else:
+            st.flag(active, "canonical:no_depot_in_tour", isdep)
+        act = s_and(active, s_not(isdep))
+        st.flag(act, "visit_once", pick(a, st["visited"]))
         # delivery k (k > h) requires its pickup k-h to be visited already
         need = [True] * (self.h + 1) + [st["visited"][k - self.h] for k in range(self.h + 1, self.n + 1)]
-        st.flag(active, "precedence", s_not(pick(a, need)))
-        st.upd(active, visited=[s_or(v, s_eq(a, k)) for k, v in enumerate(st["visited"])],
+        st.flag(act, "precedence", s_not(pick(a, need)))
+        st.upd(active, visited=[s_or(v, s_and(s_not(isdep), s_eq(a, k))) for k, v in enumerate(st["visited"])],
                length=s_add(st["length"], pick2(st["cur"], a, self.D)), cur=a)
 
     def complete(self, st):
@@ -462,7 +471,7 @@ class MTSPOracle:
     def step(self, st, a, active, t):
         city = s_ne(a, 0)
         st.flag(s_and(active, city), "visit_once", pick(a, st["visited"]))
-        st.flag(s_and(active, s_not(city)), "no_empty_subtour", s_eq(st["cur"], 0))
+        st.flag(s_and(active, s_not(city)), "canonical:no_empty_subtour", s_eq(st["cur"], 0))
         leg = pick2(st["cur"], a, self.D)
         sub = s_add(st["sub"], leg)
         st.flag(s_and(active, s_not(city)), "agents", s_ge(s_add(st["returns"], 1), self.m))  # a return opens one more sub-tour
